@@ -3,36 +3,48 @@ From Coq Require Import List Bool Lia.
 From Viv Require Import Model.Parallel.
 Import ListNotations.
 
-Lemma rounds_ok n : forall s, pending s = false -> ended s = false ->
-  exists s', prun s (concat (repeat [CSend; CGet] n)) = inl s' /\ pending s' = false
-             /\ ended s' = ended s /\ alive s' = alive s.
-Proof.
-  induction n as [|n IH]; intros s H He.
-  - exists s. cbn. auto.
-  - cbn [repeat concat app]. cbn [prun]. unfold pstep at 1. rewrite H, He.
-    cbn [prun]. unfold pstep at 1. cbn [pending].
-    cbn [ended alive].
-    destruct (IH {| pending := false; ended := false; alive := alive s |} eq_refl eq_refl) as [s' [H1 [H2 [H3 H4]]]].
-    exists s'. cbn [ended alive] in H3, H4. auto.
-Qed.
-
 Lemma prun_app s a b : prun s (a ++ b) = match prun s a with inl s' => prun s' b | inr e => inr e end.
 Proof.
   revert s. induction a as [|c a IH]; intros s; cbn; auto.
   destruct (pstep s c); auto.
 Qed.
 
-Lemma ends_ok n : forall s, pending s = false -> (0 < n)%nat ->
+(* one (send, get) round of an idle, live process leaves it as it was *)
+Lemma round_id s : pending s = false -> ended s = false -> stash s = false ->
+  prun s [CSend; CGet] = inl s.
+Proof.
+  intros Hp He Hs. destruct s as [p e a st]. cbn in *. subst. reflexivity.
+Qed.
+
+Lemma rounds_ok n : forall s, pending s = false -> ended s = false -> stash s = false ->
+  prun s (concat (repeat [CSend; CGet] n)) = inl s.
+Proof.
+  induction n as [|n IH]; intros s Hp He Hs; [reflexivity|].
+  cbn [repeat concat]. rewrite prun_app, (round_id s Hp He Hs). apply IH; assumption.
+Qed.
+
+(* end() never fails, whatever the state: afterwards the process is ended, nothing is pending, and a worker that
+   was running has been told to stop *)
+Theorem end_total s :
+  exists s', pstep s CEnd = inl s' /\ ended s' = true /\ (ended s = false -> alive s' = false /\ pending s' = false).
+Proof.
+  unfold pstep. destruct (ended s) eqn:E.
+  - exists s. split; [reflexivity|]. split; [exact E|]. discriminate.
+  - eexists. split; [reflexivity|]. cbn. auto.
+Qed.
+
+Lemma ends_ok n : forall s, (0 < n)%nat ->
   exists s', prun s (repeat CEnd n) = inl s' /\ alive s' = (if ended s then alive s else false) /\ ended s' = true.
 Proof.
-  induction n as [|n IH]; intros s H Hn; [lia|].
+  induction n as [|n IH]; intros s Hn; [lia|].
   cbn [repeat prun]. unfold pstep. destruct (ended s) eqn:E.
   - destruct n as [|n].
     + exists s. cbn. auto.
-    + destruct (IH s H ltac:(lia)) as [s' [H1 [H2 H3]]]. exists s'. rewrite E in H2. auto.
-  - rewrite H. destruct n as [|n].
+    + destruct (IH s ltac:(lia)) as [s' [H1 [H2 H3]]]. exists s'. rewrite E in H2. auto.
+  - destruct n as [|n].
     + eexists. cbn. split; [reflexivity|]. auto.
-    + destruct (IH {| pending := false; ended := true; alive := false |} eq_refl ltac:(lia)) as [s' [H1 [H2 H3]]].
+    + destruct (IH {| pending := false; ended := true; alive := false; stash := pending s |} ltac:(lia))
+        as [s' [H1 [H2 H3]]].
       exists s'. cbn in H2. auto.
 Qed.
 
@@ -41,15 +53,13 @@ Qed.
 Theorem engine_protocol_ok rounds ends : (0 < ends)%nat ->
   exists s', prun fresh (engine_trace rounds ends) = inl s' /\ alive s' = false /\ ended s' = true /\ pending s' = false.
 Proof.
-  intros He. unfold engine_trace. rewrite prun_app.
-  destruct (rounds_ok rounds fresh eq_refl eq_refl) as [s1 [H1 [H2 [H3 H4]]]]. rewrite H1.
-  destruct (ends_ok ends s1 H2 He) as [s2 [H5 [H6 H7]]].
-  exists s2. rewrite H5. split; [reflexivity|]. cbn in H3. rewrite H3 in H6. split; [exact H6|]. split; [exact H7|].
-  clear - H5 H2. revert s1 H2 H5. induction ends as [|n IH]; intros s1 H2 H5; cbn in H5.
-  - inversion H5; subst; auto.
-  - unfold pstep in H5. destruct (ended s1).
-    + eapply IH; eauto.
-    + rewrite H2 in H5. eapply (IH {| pending := false; ended := true; alive := false |}); eauto.
+  intros He. unfold engine_trace. rewrite prun_app, (rounds_ok rounds fresh eq_refl eq_refl eq_refl).
+  destruct (ends_ok ends fresh He) as [s2 [H5 [H6 H7]]].
+  exists s2. split; [exact H5|]. split; [exact H6|]. split; [exact H7|].
+  clear - H5. destruct ends as [|n]; cbn in H5; [inversion H5; reflexivity|].
+  assert (Hg : forall m s, ended s = true -> prun s (repeat CEnd m) = inl s).
+  { induction m as [|m IH]; intros s E; [reflexivity|]. cbn [repeat prun]. unfold pstep. rewrite E. apply IH, E. }
+  rewrite Hg in H5 by reflexivity. inversion H5. reflexivity.
 Qed.
 
 (* a second end() is a no-op *)
@@ -57,21 +67,64 @@ Theorem end_idempotent s s' : pstep s CEnd = inl s' -> pstep s' CEnd = inl s'.
 Proof.
   unfold pstep. destruct (ended s) eqn:E.
   - intros H. inversion H; subst. now rewrite E.
-  - destruct (pending s); [discriminate|]. intros H. inversion H; subst. reflexivity.
+  - intros H. inversion H; subst. reflexivity.
 Qed.
 
 (* sending while a command is pending is refused *)
 Theorem send_while_pending_refused s : pending s = true -> pstep s CSend = inr StillPending.
 Proof. intros H. unfold pstep. now rewrite H. Qed.
 
-(* known finding K2: ending a process whose update is still in flight is refused and the worker stays alive *)
-Theorem delete_inflight_refuted : prun fresh [CSend; CEnd] = inr StillPending.
+(* a process whose update is still in flight can be ended (its node is deleted or divided away): the worker is told
+   to stop, and the result end() took out of the pipe is still handed to the engine when it collects the batch *)
+Theorem delete_inflight_ok :
+  prun fresh [CSend; CEnd] = inl {| pending := false; ended := true; alive := false; stash := true |} /\
+  prun fresh [CSend; CEnd; CGet] = inl {| pending := false; ended := true; alive := false; stash := false |}.
+Proof. split; reflexivity. Qed.
+
+(* on every reachable state: an ended process has no worker left that was not told to stop, and a result is kept
+   only by an ended process *)
+Definition wf (s : pp) : Prop := (ended s = true -> alive s = false) /\ (stash s = true -> ended s = true).
+
+Lemma pstep_wf s c s' : wf s -> pstep s c = inl s' -> wf s'.
+Proof.
+  unfold wf. intros [H1 H2] H. destruct s as [p e a st]. cbn in H1, H2.
+  destruct c; cbn in H.
+  - destruct p; [discriminate|]. destruct e; [discriminate|]. inversion H; subst. cbn. split; [discriminate|exact H2].
+  - destruct st.
+    + inversion H; subst. cbn. split; [exact H1|discriminate].
+    + destruct p; [|discriminate]. inversion H; subst. cbn. split; [exact H1|discriminate].
+  - destruct e.
+    + inversion H; subst. cbn. split; assumption.
+    + inversion H; subst. cbn. split; reflexivity.
+  - inversion H; subst. cbn. split; assumption.
+  - inversion H; subst. cbn. split; assumption.
+Qed.
+
+Theorem reachable_wf cs : forall s s', wf s -> prun s cs = inl s' -> wf s'.
+Proof.
+  induction cs as [|c r IH]; intros s s' Hw H; cbn in H.
+  - inversion H; subst. exact Hw.
+  - destruct (pstep s c) as [s1|e] eqn:E; [|discriminate].
+    apply (IH s1 s' (pstep_wf s c s1 Hw E) H).
+Qed.
+
+Theorem ended_never_alive cs s : prun fresh cs = inl s -> ended s = true -> alive s = false.
+Proof.
+  intros H. apply (reachable_wf cs fresh s); [|exact H]. split; cbn; discriminate.
+Qed.
+
+(* the pinned code: ending a process whose update is still in flight was refused and the worker stayed alive
+   (the former known finding K2) *)
+Theorem delete_inflight_refuted_pinned : prun_pinned fresh [CSend; CEnd] = inr StillPending.
 Proof. reflexivity. Qed.
 
 Print Assumptions engine_protocol_ok.
+Print Assumptions end_total.
 Print Assumptions end_idempotent.
 Print Assumptions send_while_pending_refused.
-Print Assumptions delete_inflight_refuted.
+Print Assumptions delete_inflight_ok.
+Print Assumptions ended_never_alive.
+Print Assumptions delete_inflight_refuted_pinned.
 
 (* ---------- structural updates around a parallel process ---------- *)
 (* reading the schema, asking is_step() and moving the node never fail and change nothing, whatever the state -
@@ -99,14 +152,14 @@ Theorem engine_protocol_struct_ok rounds ends q : (0 < ends)%nat -> forallb quie
              alive s' = false /\ ended s' = true.
 Proof.
   intros He Hq.
-  assert (Hr : forall n s, pending s = false -> ended s = false ->
+  assert (Hr : forall n s, pending s = false -> ended s = false -> stash s = false ->
                  prun s (concat (repeat ([CSend] ++ q ++ [CGet]) n)) = inl s).
-  { induction n as [|n IH]; intros s Hp Hen; [reflexivity|].
+  { induction n as [|n IH]; intros s Hp Hen Hs; [reflexivity|].
     cbn [repeat concat]. rewrite prun_app.
     replace (prun s ([CSend] ++ q ++ [CGet])) with (prun s ([CSend] ++ [CGet])) by (symmetry; apply quiet_insert; exact Hq).
-    cbn. rewrite Hp, Hen. cbn. destruct s as [p e a]; cbn in *; subst. apply IH; reflexivity. }
-  rewrite prun_app, (Hr rounds fresh eq_refl eq_refl).
-  destruct (ends_ok ends fresh eq_refl He) as [s' [H1 [H2 H3]]]. exists s'. auto.
+    cbn [app]. rewrite (round_id s Hp Hen Hs). apply IH; assumption. }
+  rewrite prun_app, (Hr rounds fresh eq_refl eq_refl eq_refl).
+  destruct (ends_ok ends fresh He) as [s' [H1 [H2 H3]]]. exists s'. auto.
 Qed.
 
 (* the pinned code on the same traces *)
